@@ -458,3 +458,5 @@ def install(src):
     nostop = no_stop_on_build(src)
     ghost.POST_HINTS['Sequence'] = lambda ob: SEQUENCE.post_hints(ob) + nostop(ob)
     ghost.POST_HINTS['Struct'] = lambda ob: struct_post_hints(ob) + nostop(ob)
+    from . import lazylemmas as _lzl
+    ghost.POST_HINTS['LazyStruct'] = _lzl.struct_post_hints(src)
